@@ -45,6 +45,22 @@ let cmd_paging args =
   let out = paging (nat_of_int (List.length l + 1)) rows (z_of_int (-1)) (nat_of_int n) in
   Printf.printf "%s\n" (String.concat "," (List.map (fun (i, ()) -> string_of_int (int_of_z i)) out))
 
+(* pick <target> <start> | size,size,... | kid:ksz or - *)
+let cmd_pick args =
+  match List.map String.trim (String.split_on_char '|' args) with
+  | [hd; szs; known] ->
+      (match split_on ' ' hd with
+       | [target; start] ->
+           let arr = Array.of_list (ints szs) in
+           let sizes id = let i = int_of_z id in if i >= 0 && i < Array.length arr then Some (z_of_int arr.(i)) else None in
+           let kn = if known = "-" then None else (match String.split_on_char ':' known with
+                      | [a; b] -> Some (z_of_int (int_of_string a), z_of_int (int_of_string b)) | _ -> failwith "bad known") in
+           (match pick (nat_of_int (Array.length arr + 2)) (override sizes kn) (z_of_int (int_of_string target)) (z_of_int (int_of_string start)) with
+            | Some r -> Printf.printf "%d\n" (int_of_z r)
+            | None -> print_endline "none")
+       | _ -> failwith "pick: bad header")
+  | _ -> failwith "pick: bad args"
+
 (* ---- streams ---- *)
 let n_of_int n = if n = 0 then N0 else Npos (pos_of_int n)
 let int_of_n = function N0 -> 0 | Npos p -> int_of_pos p
@@ -243,7 +259,7 @@ let run_trace_block () =
     (String.concat "/" (List.map event_s prog_events)) (dump_world wf)
 
 let () =
-  let extra = ref [("por", cmd_por); ("bio", cmd_bio true); ("fio", cmd_bio false); ("zsd", cmd_zsd)] in
+  let extra = ref [("pick", cmd_pick); ("por", cmd_por); ("bio", cmd_bio true); ("fio", cmd_bio false); ("zsd", cmd_zsd)] in
   try
     while true do
       let line = input_line stdin in
